@@ -39,7 +39,7 @@ ID = "C13"
 LEAN_TARGETS = ["RV.C13.Props", "RV.C13.Audit"]
 AUDIT = "RV/C13/Audit.lean"
 DRIVER = "drv_c13"
-CASES = {"quick": 420, "thorough": 9000, "search": 3000}
+CASES = {"quick": 800, "thorough": 16000, "search": 6000}
 RULE = ("random datasets (0-3 named graphs incl. blank-node-named, empty and registered-empty ones, ~25 terms incl. "
         "blank nodes, RDF lists, falsy literals) as Dataset (default_union on/off), ConjunctiveGraph, plain Graph or a "
         "Graph view; 18-30 read-only calls per case drawn from all serializer formats x option sets, ~50 SPARQL "
